@@ -3,9 +3,12 @@
 package verifharness
 
 import (
+	"encoding/json"
 	"fmt"
 	"math"
 	"math/rand"
+	"net/http"
+	"net/http/httptest"
 	"os"
 	"path/filepath"
 	"sort"
@@ -13,6 +16,7 @@ import (
 	"testing"
 
 	"github.com/markusressel/fan2go/internal"
+	"github.com/markusressel/fan2go/internal/api"
 	"github.com/markusressel/fan2go/internal/configuration"
 	"github.com/markusressel/fan2go/internal/controller"
 	"github.com/markusressel/fan2go/internal/curves"
@@ -212,6 +216,38 @@ func runSystemScenario(rec *Recorder, r *rand.Rand, idx, length int) {
 		}
 		return ps
 	}
+	// the REST API as an observer: what GET /sensor/ and GET /curve/ serve must be the state at that moment
+	rest := api.CreateRestService()
+	apiView := func() Ev {
+		get := func(path string) map[string]map[string]any {
+			rw := httptest.NewRecorder()
+			rest.ServeHTTP(rw, httptest.NewRequest(http.MethodGet, path, nil))
+			out := map[string]map[string]any{}
+			_ = json.Unmarshal(rw.Body.Bytes(), &out)
+			return out
+		}
+		sv, cv := get("/sensor/"), get("/curve/")
+		se, ce := []Ev{}, []Ev{}
+		for _, id := range sensorIds {
+			a := -1 << 30
+			if o, ok := sv[id]; ok {
+				if f, ok := o["movingAvg"].(float64); ok {
+					a = int(math.Floor(f * 1000))
+				}
+			}
+			se = append(se, Ev{"id": id, "am": a})
+		}
+		for _, c := range cs {
+			v := -1
+			if o, ok := cv[c.ID]; ok {
+				if f, ok := o["value"].(float64); ok {
+					v = int(f)
+				}
+			}
+			ce = append(ce, Ev{"id": c.ID, "v": v})
+		}
+		return Ev{"sensors": se, "curves": ce}
+	}
 	rec.NextTrace()
 	{
 		var se, fe []Ev
@@ -264,7 +300,7 @@ func runSystemScenario(rec *Recorder, r *rand.Rand, idx, length int) {
 				must(os.WriteFile(tempFile[sid], []byte(xs+"\n"), 0644))
 			}
 			errp := internal.VerifUpdateSensor(s)
-			ev := Ev{"ev": "Poll", "s": sid, "fault": fault, "err": errp != nil, "am": am(sid), "xlo": 0, "xhi": 0}
+			ev := Ev{"ev": "Poll", "s": sid, "fault": fault, "err": errp != nil, "am": am(sid), "xlo": 0, "xhi": 0, "api": apiView()}
 			if fault == "" {
 				ev["xlo"], ev["xhi"] = reading[sid]*1000, reading[sid]*1000
 			}
@@ -272,7 +308,7 @@ func runSystemScenario(rec *Recorder, r *rand.Rand, idx, length int) {
 		} else {
 			f := fs[r.Intn(len(fs))]
 			cerr := ctlOf[f.id].UpdateFanSpeed()
-			rec.Emit(Ev{"ev": "Cyc", "f": f.id, "err": cerr != nil, "vals": curVals(), "pwms": pwms()})
+			rec.Emit(Ev{"ev": "Cyc", "f": f.id, "err": cerr != nil, "vals": curVals(), "pwms": pwms(), "api": apiView()})
 		}
 	}
 }
